@@ -388,11 +388,8 @@ func main() {
 	genCloneInit(o, pkgs["."])
 	genSessions(o, all)
 	genMisc(o, pkgs, all)
-<<<<<<< HEAD
 	genLockSections(o, pkgs["."], *repo)
-=======
 	genSharedWrites(o, all)
->>>>>>> bC07
 
 	if *factsPath != "" {
 		b, _ := json.MarshalIndent(o.facts, "", " ")
@@ -961,7 +958,6 @@ func genMisc(o *out, pkgs map[string]map[string]*ast.File, all []funcInfo) {
 	o.write("Misc", b.String())
 }
 
-<<<<<<< HEAD
 
 // ---- C14: critical sections of prepare_stmt.go ------------------------------------------------
 // For every Mux.Lock()/RLock() .. Unlock()/RUnlock() section (tracked through branches; a deferred unlock extends the
@@ -1035,7 +1031,87 @@ func genLockSections(o *out, files map[string]*ast.File, repo string) {
 				if sel, ok := y.Fun.(*ast.SelectorExpr); ok && blockingCalls[sel.Sel.Name] {
 					held.calls = append(held.calls, sel.Sel.Name)
 				}
-=======
+			}
+			return true
+		})
+	}
+	var walk func(fn string, stmts []ast.Stmt, held *lockSec) *lockSec
+	walk = func(fn string, stmts []ast.Stmt, held *lockSec) *lockSec {
+		for _, st := range stmts {
+			if name, deferred := muxCall(st); name != "" {
+				switch {
+				case name == "Lock" || name == "RLock":
+					held = &lockSec{fn: fn, kind: name, line: fset.Position(st.Pos()).Line}
+					secs = append(secs, held)
+				case deferred:
+					if held != nil {
+						held.deferred = true
+					}
+				default:
+					held = nil
+				}
+				continue
+			}
+			switch x := st.(type) {
+			case *ast.IfStmt:
+				scan(x.Init, held)
+				scan(x.Cond, held)
+				h2 := walk(fn, x.Body.List, held)
+				if !endsWithReturn(x.Body) {
+					held = h2
+				}
+				if eb, ok := x.Else.(*ast.BlockStmt); ok {
+					h3 := walk(fn, eb.List, held)
+					if !endsWithReturn(eb) {
+						held = h3
+					}
+				} else if x.Else != nil {
+					walk(fn, []ast.Stmt{x.Else}, held)
+				}
+			case *ast.BlockStmt:
+				held = walk(fn, x.List, held)
+			case *ast.RangeStmt:
+				scan(x.X, held)
+				held = walk(fn, x.Body.List, held)
+			case *ast.ForStmt:
+				held = walk(fn, x.Body.List, held)
+			case *ast.DeferStmt:
+				// runs at return: after a non-deferred Unlock, or (for deferred unlocks, LIFO) possibly under the lock
+				if held != nil && held.deferred {
+					scan(x.Call, held)
+				}
+			default:
+				scan(st, held)
+			}
+		}
+		return held
+	}
+	for _, d := range f.Decls {
+		fd, ok := d.(*ast.FuncDecl)
+		if !ok || fd.Body == nil {
+			continue
+		}
+		name := fd.Name.Name
+		if fd.Recv != nil && len(fd.Recv.List) > 0 {
+			name = strings.TrimPrefix(src(fd.Recv.List[0].Type), "*") + "." + name
+		}
+		walk(name, fd.Body.List, nil)
+	}
+	var b strings.Builder
+	b.WriteString("structure LockSection where\n  fn : String\n  kind : String\n  line : Nat\n  deferred : Bool\n  blockingCalls : List String\n  chanOps : Nat\n  goStmts : Nat\nderiving Repr, DecidableEq\n\n")
+	b.WriteString("/-- prepare_stmt.go: every Mux.Lock/RLock section and what is executed while the lock is held -/\ndef lockSections : List LockSection := [\n")
+	for i, s := range secs {
+		if i > 0 {
+			b.WriteString(",\n")
+		}
+		fmt.Fprintf(&b, "  { fn := %s, kind := %s, line := %d, deferred := %s, blockingCalls := %s, chanOps := %d, goStmts := %d }",
+			lstr(s.fn), lstr(s.kind), s.line, lbool(s.deferred), lstrs(s.calls), s.chanOps, s.goStmts)
+	}
+	b.WriteString("\n]\n")
+	o.write("LockSections", b.String())
+	o.facts["lockSections"] = len(secs)
+}
+
 // ---- C07: assignment sites of shared fields ---------------------------------------------------
 
 // lhsParts: for an assignment target like `a.b.c[k].d` returns base identifier "a", the selector path "b.c[].d",
@@ -1114,88 +1190,10 @@ func genSharedWrites(o *out, all []funcInfo) {
 				}
 			case *ast.IncDecStmt:
 				add(x.X)
->>>>>>> bC07
 			}
 			return true
 		})
 	}
-<<<<<<< HEAD
-	var walk func(fn string, stmts []ast.Stmt, held *lockSec) *lockSec
-	walk = func(fn string, stmts []ast.Stmt, held *lockSec) *lockSec {
-		for _, st := range stmts {
-			if name, deferred := muxCall(st); name != "" {
-				switch {
-				case name == "Lock" || name == "RLock":
-					held = &lockSec{fn: fn, kind: name, line: fset.Position(st.Pos()).Line}
-					secs = append(secs, held)
-				case deferred:
-					if held != nil {
-						held.deferred = true
-					}
-				default:
-					held = nil
-				}
-				continue
-			}
-			switch x := st.(type) {
-			case *ast.IfStmt:
-				scan(x.Init, held)
-				scan(x.Cond, held)
-				h2 := walk(fn, x.Body.List, held)
-				if !endsWithReturn(x.Body) {
-					held = h2
-				}
-				if eb, ok := x.Else.(*ast.BlockStmt); ok {
-					h3 := walk(fn, eb.List, held)
-					if !endsWithReturn(eb) {
-						held = h3
-					}
-				} else if x.Else != nil {
-					walk(fn, []ast.Stmt{x.Else}, held)
-				}
-			case *ast.BlockStmt:
-				held = walk(fn, x.List, held)
-			case *ast.RangeStmt:
-				scan(x.X, held)
-				held = walk(fn, x.Body.List, held)
-			case *ast.ForStmt:
-				held = walk(fn, x.Body.List, held)
-			case *ast.DeferStmt:
-				// runs at return: after a non-deferred Unlock, or (for deferred unlocks, LIFO) possibly under the lock
-				if held != nil && held.deferred {
-					scan(x.Call, held)
-				}
-			default:
-				scan(st, held)
-			}
-		}
-		return held
-	}
-	for _, d := range f.Decls {
-		fd, ok := d.(*ast.FuncDecl)
-		if !ok || fd.Body == nil {
-			continue
-		}
-		name := fd.Name.Name
-		if fd.Recv != nil && len(fd.Recv.List) > 0 {
-			name = strings.TrimPrefix(src(fd.Recv.List[0].Type), "*") + "." + name
-		}
-		walk(name, fd.Body.List, nil)
-	}
-	var b strings.Builder
-	b.WriteString("structure LockSection where\n  fn : String\n  kind : String\n  line : Nat\n  deferred : Bool\n  blockingCalls : List String\n  chanOps : Nat\n  goStmts : Nat\nderiving Repr, DecidableEq\n\n")
-	b.WriteString("/-- prepare_stmt.go: every Mux.Lock/RLock section and what is executed while the lock is held -/\ndef lockSections : List LockSection := [\n")
-	for i, s := range secs {
-		if i > 0 {
-			b.WriteString(",\n")
-		}
-		fmt.Fprintf(&b, "  { fn := %s, kind := %s, line := %d, deferred := %s, blockingCalls := %s, chanOps := %d, goStmts := %d }",
-			lstr(s.fn), lstr(s.kind), s.line, lbool(s.deferred), lstrs(s.calls), s.chanOps, s.goStmts)
-	}
-	b.WriteString("\n]\n")
-	o.write("LockSections", b.String())
-	o.facts["lockSections"] = len(secs)
-=======
 	var b strings.Builder
 	b.WriteString("structure WriteSite where\n  file : String\n  fn : String\n  base : String\n  path : String\n  field : String\n  elem : Bool\nderiving Repr, DecidableEq\n\n")
 	emit := func(name, doc string, ss []site) {
@@ -1215,5 +1213,4 @@ func genSharedWrites(o *out, all []funcInfo) {
 	o.write("SharedWrites", b.String())
 	o.facts["sharedFieldWrites"] = len(fieldSites)
 	o.facts["hotFuncWrites"] = len(funcSites)
->>>>>>> bC07
 }
